@@ -20,7 +20,7 @@ from __future__ import annotations
 import ast
 import copy
 import os
-from typing import Dict, List
+from typing import Any, Dict, List, Optional, Tuple
 
 _NEG = {ast.Eq: ast.NotEq, ast.NotEq: ast.Eq, ast.Is: ast.IsNot, ast.IsNot: ast.Is, ast.In: ast.NotIn, ast.NotIn: ast.In}
 
@@ -825,6 +825,7 @@ def _unroll_table_loops(tree: ast.Module, known: set) -> None:
             return n
     for fn in ast.walk(tree):
         if isinstance(fn, (ast.FunctionDef, ast.AsyncFunctionDef)):
+            comp_unroll(fn)  # first: a comprehension's own variable is not a use of the enclosing loop's variable of the same name
             fn.body = unroll(fn.body)
             comp_unroll(fn)
             if tables:
@@ -1253,6 +1254,404 @@ def _thread_sentinels(tree: ast.Module) -> None:
             walk(n.body)
 
 
+def _segment_lists(tree: ast.Module) -> None:
+    """C34: a local list that only collects segments - `L = [a, b]`, `L.append(c)` / `L.extend([..])` / `L += [..]` at the same block level - and is only
+    ever read as the operand of `sep.join(L)`: each join is given the display of the elements collected so far (`sep.join([a, b])`), the elements
+    held in temporaries bound where they were computed.  The list itself disappears; evaluation order is untouched."""
+    counter = [0]
+
+    def uses(node: ast.AST, nm: str) -> List[ast.Name]:
+        return [x for x in ast.walk(node) if isinstance(x, ast.Name) and x.id == nm]
+
+    def do_block(fn: ast.AST, body: List[ast.stmt]) -> None:
+        i = 0
+        while i < len(body):
+            st = body[i]
+            if isinstance(st, ast.Assign) and len(st.targets) == 1 and isinstance(st.targets[0], ast.Name) and isinstance(st.value, ast.List) \
+                    and not any(isinstance(e, ast.Starred) for e in st.value.elts):
+                nm = st.targets[0].id
+                total = len(uses(fn, nm))
+                seen = 1
+                plan: List[Tuple[int, str, Any]] = [(i, "init", list(st.value.elts))]
+                ok = True
+                njoin = 0
+                for j in range(i + 1, len(body)):
+                    s2 = body[j]
+                    us = uses(s2, nm)
+                    if not us:
+                        continue
+                    seen += len(us)
+                    if isinstance(s2, ast.Expr) and isinstance(s2.value, ast.Call) and isinstance(s2.value.func, ast.Attribute) and isinstance(s2.value.func.value, ast.Name) \
+                            and s2.value.func.value.id == nm and not s2.value.keywords and len(s2.value.args) == 1 and len(us) == 1:
+                        a = s2.value.args[0]
+                        if s2.value.func.attr == "append" and not isinstance(a, ast.Starred):
+                            plan.append((j, "add", [a]))
+                            continue
+                        if s2.value.func.attr == "extend" and isinstance(a, (ast.List, ast.Tuple)) and not any(isinstance(e, ast.Starred) for e in a.elts):
+                            plan.append((j, "add", list(a.elts)))
+                            continue
+                        ok = False
+                        break
+                    if isinstance(s2, ast.If) and not s2.orelse and not any(isinstance(x, (ast.Call, ast.NamedExpr, ast.Await, ast.Lambda)) for x in ast.walk(s2.test)) \
+                            and not uses(s2.test, nm) and all(
+                                isinstance(b_, ast.Expr) and isinstance(b_.value, ast.Call) and isinstance(b_.value.func, ast.Attribute) and isinstance(b_.value.func.value, ast.Name)
+                                and b_.value.func.value.id == nm and b_.value.func.attr == "append" and len(b_.value.args) == 1 and not b_.value.keywords
+                                and not isinstance(b_.value.args[0], ast.Starred) and len(uses(b_, nm)) == 1 for b_ in s2.body):
+                        plan.append((j, "opt", (s2.test, [b_.value.args[0] for b_ in s2.body])))
+                        continue
+                    if isinstance(s2, ast.AugAssign) and isinstance(s2.target, ast.Name) and s2.target.id == nm and isinstance(s2.op, ast.Add) and len(us) == 1 \
+                            and isinstance(s2.value, (ast.List, ast.Tuple)) and not any(isinstance(e, ast.Starred) for e in s2.value.elts):
+                        plan.append((j, "add", list(s2.value.elts)))
+                        continue
+                    if isinstance(s2, (ast.Assign, ast.AnnAssign, ast.Return, ast.Expr)) and getattr(s2, "value", None) is not None:
+                        joins = [c for c in ast.walk(s2.value) if isinstance(c, ast.Call) and isinstance(c.func, ast.Attribute) and c.func.attr == "join"
+                                 and isinstance(c.func.value, ast.Constant) and len(c.args) == 1 and not c.keywords and isinstance(c.args[0], ast.Name) and c.args[0].id == nm]
+                        tg_names = [x for t_ in (s2.targets if isinstance(s2, ast.Assign) else ([s2.target] if isinstance(s2, ast.AnnAssign) else [])) for x in uses(t_, nm)]
+                        if joins and len(joins) == len(us) and not tg_names:
+                            plan.append((j, "join", joins))
+                            njoin += len(joins)
+                            continue
+                    ok = False
+                    break
+                if ok and njoin and seen == total:
+                    counter[0] += 1
+                    elems: List[Any] = []  # expr, or (test, expr) for an element appended under a test
+                    repl: Dict[int, List[ast.stmt]] = {}
+                    feasible = True
+                    for (j, kind, payload) in plan:
+                        if kind in ("init", "add"):
+                            outst: List[ast.stmt] = []
+                            for e in payload:
+                                if isinstance(e, (ast.Name, ast.Constant)):
+                                    elems.append(e)
+                                else:
+                                    tn = f"__seg{counter[0]}_{len(elems)}"
+                                    a_ = ast.copy_location(ast.Assign(targets=[ast.Name(id=tn, ctx=ast.Store())], value=e, type_comment=None), body[j])
+                                    outst.append(a_)
+                                    elems.append(ast.Name(id=tn, ctx=ast.Load()))
+                            repl[j] = outst
+                        elif kind == "opt":
+                            test, es = payload
+                            inner_: List[ast.stmt] = []
+                            for e in es:
+                                tn = f"__seg{counter[0]}_{len(elems)}"
+                                inner_.append(ast.copy_location(ast.Assign(targets=[ast.Name(id=tn, ctx=ast.Store())], value=e, type_comment=None), body[j]))
+                                elems.append((test, ast.Name(id=tn, ctx=ast.Load()), j))
+                            repl[j] = [ast.copy_location(ast.If(test=test, body=inner_, orelse=[]), body[j])]
+                        else:
+                            if all(not isinstance(e, tuple) for e in elems):
+                                for c in payload:
+                                    c.args[0] = ast.copy_location(ast.List(elts=[copy.deepcopy(e) for e in elems], ctx=ast.Load()), c.args[0])
+                                continue
+                            # some element is there only under a test: the join spelled as a concatenation, `(sep + e if test else <empty>)` for those.
+                            # The test is read again here: nothing between may re-bind its names.
+                            for c in payload:
+                                sep = c.func.value
+                                empty = ast.Constant(value=b"" if isinstance(sep.value, bytes) else "")
+                                if not isinstance(sep.value, (bytes, str)) or isinstance(elems[0], tuple) and sep.value:
+                                    feasible = False
+                                    break
+                                for e in elems:
+                                    if isinstance(e, tuple):
+                                        tn_ = {x.id for x in ast.walk(e[0]) if isinstance(x, ast.Name)}
+                                        if any(isinstance(x, ast.Name) and x.id in tn_ and isinstance(x.ctx, (ast.Store, ast.Del)) for s3 in body[e[2] + 1:j + 1] for x in ast.walk(s3)):
+                                            feasible = False
+                                if not feasible:
+                                    break
+                                acc: Optional[ast.expr] = None
+                                for k_, e in enumerate(elems):
+                                    raw = copy.deepcopy(e[1] if isinstance(e, tuple) else e)
+                                    piece: ast.expr = raw if (k_ == 0 or not sep.value) else ast.BinOp(left=copy.deepcopy(sep), op=ast.Add(), right=raw)
+                                    if isinstance(e, tuple):
+                                        piece = ast.IfExp(test=copy.deepcopy(e[0]), body=piece, orelse=copy.deepcopy(empty))
+                                    acc = piece if acc is None else ast.BinOp(left=acc, op=ast.Add(), right=piece)
+                                c._jv_concat = acc if acc is not None else empty  # type: ignore[attr-defined]
+                    if not feasible:
+                        i += 1
+                        continue
+                    # replace the joins that became concatenations
+                    for (j, kind, payload) in plan:
+                        if kind == "join":
+                            for c in payload:
+                                if hasattr(c, "_jv_concat"):
+                                    new_ = ast.copy_location(c._jv_concat, c)
+                                    ast.fix_missing_locations(new_)
+
+                                    class RJ(ast.NodeTransformer):
+                                        def visit_Call(self, node: ast.Call):
+                                            if node is c:
+                                                return new_
+                                            return self.generic_visit(node)
+                                    body[j] = RJ().visit(body[j])
+                    nb: List[ast.stmt] = []
+                    for j, s2 in enumerate(body):
+                        if j in repl:
+                            nb.extend(repl[j])
+                        else:
+                            nb.append(s2)
+                    body[:] = nb or [ast.Pass()]
+                    continue  # re-examine position i
+            i += 1
+
+    for fn in ast.walk(tree):
+        if isinstance(fn, (ast.FunctionDef, ast.AsyncFunctionDef)):
+            for n in ast.walk(fn):
+                for fld in ("body", "orelse", "finalbody"):
+                    b = getattr(n, fld, None)
+                    if isinstance(b, list) and b and isinstance(b[0], ast.stmt):
+                        do_block(fn, b)
+
+
+_ELEMENT_VALIDATORS = {"is_list_str": "str"}  # validators that raise unless every element of their argument is of the named type (decided by C15 / C16 on their own)
+
+
+def _next_search(tree: ast.Module) -> None:
+    """C35: `x = next((E for k in IT if C), D)` is the search loop `for k in IT: if C: x = E; break  else: x = D` (without D: raise StopIteration).
+    An immediately following `if x is [not] None:` statement (D being None) is copied to both exits - decided where x was just bound to None, and
+    decided the other way where x is the loop variable itself and a validator call `is_list_str(IT)` stands before the search in the same block
+    (its elements are str)."""
+    counter = [0]
+
+    def is_none_test(t: ast.expr, nm: str) -> Optional[bool]:
+        """True for `nm is None`, False for `nm is not None`"""
+        if isinstance(t, ast.Compare) and len(t.ops) == 1 and isinstance(t.left, ast.Name) and t.left.id == nm and isinstance(t.comparators[0], ast.Constant) \
+                and t.comparators[0].value is None and isinstance(t.ops[0], (ast.Is, ast.IsNot)):
+            return isinstance(t.ops[0], ast.Is)
+        return None
+
+    def do_block(fn: ast.AST, body: List[ast.stmt]) -> None:
+        i = 0
+        while i < len(body):
+            st = body[i]
+            i += 1
+            if not (isinstance(st, ast.Assign) and len(st.targets) == 1 and isinstance(st.targets[0], ast.Name) and isinstance(st.value, ast.Call)
+                    and isinstance(st.value.func, ast.Name) and st.value.func.id == "next" and len(st.value.args) in (1, 2) and not st.value.keywords
+                    and isinstance(st.value.args[0], ast.GeneratorExp) and len(st.value.args[0].generators) == 1):
+                continue
+            gen = st.value.args[0]
+            g = gen.generators[0]
+            dflt = st.value.args[1] if len(st.value.args) == 2 else None
+            if g.is_async or (dflt is not None and not isinstance(dflt, (ast.Constant, ast.Name))):
+                continue
+            if any(isinstance(x, (ast.NamedExpr, ast.Lambda, ast.Yield, ast.YieldFrom, ast.Await, ast.GeneratorExp, ast.ListComp, ast.SetComp, ast.DictComp)) for x in ast.walk(gen) if x is not gen):
+                continue
+            x = st.targets[0].id
+            # the comprehension's own variable must not meet a name of the function
+            inside = {id(n) for n in ast.walk(gen)}
+            outer = {n.id for n in ast.walk(fn) if isinstance(n, ast.Name) and id(n) not in inside} | {a.arg for a in ast.walk(fn) if isinstance(a, ast.arg)}
+            tnames = {n.id for n in ast.walk(g.target) if isinstance(n, ast.Name)}
+            ren: Dict[str, str] = {}
+            for nm in sorted(tnames & outer):
+                counter[0] += 1
+                ren[nm] = f"{nm}__n{counter[0]}"
+
+            class Rn(ast.NodeTransformer):
+                def visit_Name(self, n: ast.Name):
+                    if n.id in ren:
+                        return ast.copy_location(ast.Name(id=ren[n.id], ctx=n.ctx), n)
+                    return n
+            tgt = Rn().visit(copy.deepcopy(g.target))
+            for n in ast.walk(tgt):
+                if isinstance(n, (ast.Name, ast.Tuple, ast.List, ast.Starred)):
+                    n.ctx = ast.Store()
+            elt = Rn().visit(copy.deepcopy(gen.elt))
+            ifs = [Rn().visit(copy.deepcopy(c)) for c in g.ifs]
+            cond = ifs[0] if len(ifs) == 1 else (ast.BoolOp(op=ast.And(), values=ifs) if ifs else None)
+            hit: List[ast.stmt] = [ast.copy_location(ast.Assign(targets=[ast.Name(id=x, ctx=ast.Store())], value=elt, type_comment=None), st)]
+            miss: List[ast.stmt] = [ast.copy_location(ast.Assign(targets=[ast.Name(id=x, ctx=ast.Store())], value=dflt, type_comment=None), st)] if dflt is not None else \
+                [ast.copy_location(ast.Raise(exc=ast.Call(func=ast.Name(id="StopIteration", ctx=ast.Load()), args=[], keywords=[]), cause=None), st)]
+            # the test that follows
+            nxt = body[i] if i < len(body) else None
+            took = False
+            if isinstance(nxt, ast.If) and dflt is not None and isinstance(dflt, ast.Constant) and dflt.value is None and is_none_test(nxt.test, x) is not None \
+                    and not any(isinstance(n, (ast.Break, ast.Continue)) for n in ast.walk(nxt)) and sum(1 for _ in ast.walk(nxt)) <= 300:
+                isnone = is_none_test(nxt.test, x)
+                miss.extend(copy.deepcopy(nxt.body if isnone else nxt.orelse))
+                validated = any(isinstance(p, ast.Expr) and isinstance(p.value, ast.Call) and isinstance(p.value.func, ast.Name) and p.value.func.id in _ELEMENT_VALIDATORS
+                                and len(p.value.args) == 1 and ast.dump(p.value.args[0]) == ast.dump(g.iter) for p in body[:i - 1])
+                stores_between = False
+                if validated and isinstance(elt, ast.Name) and isinstance(tgt, ast.Name) and elt.id == tgt.id and not stores_between:
+                    hit.extend(copy.deepcopy(nxt.orelse if isnone else nxt.body))
+                else:
+                    hit.append(copy.deepcopy(nxt))
+                took = True
+            hit.append(ast.copy_location(ast.Break(), st))
+            inner: List[ast.stmt] = [ast.copy_location(ast.If(test=cond, body=hit, orelse=[]), st)] if cond is not None else hit
+            loop = ast.copy_location(ast.For(target=tgt, iter=g.iter, body=inner, orelse=miss, type_comment=None), st)
+            ast.fix_missing_locations(loop)
+            body[i - 1] = loop
+            if took:
+                del body[i]
+
+    for fn in ast.walk(tree):
+        if isinstance(fn, (ast.FunctionDef, ast.AsyncFunctionDef)):
+            for n in ast.walk(fn):
+                for fld in ("body", "orelse", "finalbody"):
+                    b = getattr(n, fld, None)
+                    if isinstance(b, list) and b and isinstance(b[0], ast.stmt):
+                        do_block(fn, b)
+
+
+_GENERATED = None
+
+
+def _is_generated(name: str) -> bool:
+    """names the inliner makes up: a spliced body's local `x` becomes `x__<helper><n>`, lifted calls `__inl<n>`"""
+    import re
+    global _GENERATED
+    if _GENERATED is None:
+        _GENERATED = re.compile(r"^(?:__inl\d+|.+__[A-Za-z]\w*?\d+)$")
+    return bool(_GENERATED.match(name))
+
+
+def _coalesce_temp_copies(fn: ast.AST) -> None:
+    """C36: `T = e ... X = T` where T is a name the inliner made up, bound once, and `X = T` is its one copy: T is X from the start (the splice of
+    `X = helper(e)` whose body tests its parameter before returning it).  Sound when nothing reads or binds X between the two statements and every
+    way of not reaching the copy leaves the function without reading X: the copy stands in the block of T's binding, or under `if` statements of
+    that block whose other arms only raise / return without naming X."""
+    def names_in(node: ast.AST, nm: str) -> int:
+        return sum(1 for x in ast.walk(node) if isinstance(x, ast.Name) and x.id == nm)
+
+    def leaves_without(stmts: List[ast.stmt], nm: str) -> bool:
+        if not stmts:
+            return False
+        last = stmts[-1]
+        if any(names_in(s_, nm) for s_ in stmts):
+            return False
+        if isinstance(last, (ast.Raise, ast.Return)):
+            return True
+        if isinstance(last, ast.If):
+            return leaves_without(last.body, nm) and leaves_without(last.orelse, nm)
+        return False
+
+    def find_copy(stmts: List[ast.stmt], T: str):
+        """(owner list, index, X) of the one `X = T` reachable through if-arms whose sibling arm leaves; None if something else names X or T's copy is elsewhere"""
+        for j, s_ in enumerate(stmts):
+            if isinstance(s_, ast.Assign) and len(s_.targets) == 1 and isinstance(s_.targets[0], ast.Name) and isinstance(s_.value, ast.Name) and s_.value.id == T:
+                return stmts, j, s_.targets[0].id, []
+            if isinstance(s_, ast.If):
+                for arm, other in ((s_.body, s_.orelse), (s_.orelse, s_.body)):
+                    if any(names_in(a_, T) for a_ in arm) and any(isinstance(a_, ast.Assign) and isinstance(a_.value, ast.Name) and a_.value.id == T for a_ in ast.walk(ast.Module(body=arm, type_ignores=[]))):
+                        r = find_copy(arm, T)
+                        if r is None:
+                            return None
+                        return r[0], r[1], r[2], r[3] + [(s_, other)] + [("pre", stmts[:j])]
+        return None
+
+    changed = True
+    rounds = 0
+    while changed and rounds < 6:
+        changed = False
+        rounds += 1
+        stores: Dict[str, int] = {}
+        for x in ast.walk(fn):
+            if isinstance(x, ast.Name) and isinstance(x.ctx, (ast.Store, ast.Del)):
+                stores[x.id] = stores.get(x.id, 0) + 1
+        for owner in [n for n in ast.walk(fn)]:
+            for fld in ("body", "orelse", "finalbody"):
+                blk = getattr(owner, fld, None)
+                if not (isinstance(blk, list) and blk and isinstance(blk[0], ast.stmt)):
+                    continue
+                for i, st in enumerate(blk):
+                    if not (isinstance(st, ast.Assign) and len(st.targets) == 1 and isinstance(st.targets[0], ast.Name)):
+                        continue
+                    T = st.targets[0].id
+                    if not _is_generated(T) or stores.get(T, 0) != 1:
+                        continue
+                    copies = [x for x in ast.walk(fn) if isinstance(x, ast.Assign) and isinstance(x.value, ast.Name) and x.value.id == T]
+                    if len(copies) != 1 or not (len(copies[0].targets) == 1 and isinstance(copies[0].targets[0], ast.Name)):
+                        continue
+                    tail = blk[i + 1:]
+                    real = (blk, i + 1)  # the list `tail` is a slice of, and where it starts
+                    r = find_copy(tail, T)
+                    if r is None and isinstance(owner, ast.Try) and fld == "body" and not any(names_in(s_, T) for s_ in blk[i + 1:]) and not owner.orelse and not owner.finalbody:
+                        # bound in a try body whose handlers only leave: the search goes on after the try statement
+                        Xc = copies[0].targets[0].id
+                        if all(leaves_without(h.body, Xc) and names_in(ast.Module(body=h.body, type_ignores=[]), T) == 0 for h in owner.handlers) \
+                                and not any(names_in(s_, Xc) for s_ in blk[i + 1:]):
+                            for o2 in ast.walk(fn):
+                                for f2 in ("body", "orelse", "finalbody"):
+                                    b2 = getattr(o2, f2, None)
+                                    if isinstance(b2, list) and any(x is owner for x in b2):
+                                        k2 = [x is owner for x in b2].index(True)
+                                        tail = b2[k2 + 1:]
+                                        real = (b2, k2 + 1)
+                                        r = find_copy(tail, T)
+                    if r is None or r[0][r[1]] is not copies[0]:
+                        continue
+                    lst, j, X, conds = r
+                    if X == T or _is_generated(X) and False:
+                        continue
+                    # nothing names X between T's binding and the copy; the skipped arms leave without naming X
+                    ok = names_in(st.value, X) == 0
+                    for c_ in conds:
+                        if c_[0] == "pre":
+                            ok = ok and not any(names_in(p_, X) for p_ in c_[1])
+                        else:
+                            ifst, other = c_
+                            ok = ok and names_in(ifst.test, X) == 0 and (leaves_without(other, X))
+                    ok = ok and not any(names_in(p_, X) for p_ in lst[:j])
+                    # uses of T after the copy become uses of X: X must not be re-bound while T is still read - require that T is not read after the copy
+                    after = lst[j + 1:]
+                    ok = ok and not any(names_in(a_, T) for a_ in after)
+                    if not ok:
+                        continue
+                    for x in ast.walk(fn):
+                        if isinstance(x, ast.Name) and x.id == T:
+                            x.id = X
+                    if lst is tail:
+                        del real[0][real[1] + j]
+                    else:
+                        del lst[j]
+                        if not lst:
+                            lst.append(ast.copy_location(ast.Pass(), st))
+                    changed = True
+                    break
+                if changed:
+                    break
+            if changed:
+                break
+
+
+def _duplicate_merge_calls(tree: ast.Module) -> None:
+    """C38: `if c: A else: B` followed by one call statement that reads two or more names bound in both arms (`n = K(p=p, q=q, dp=dp)` after the arms
+    computed p, q, dp in two ways): the statement is copied to the end of both arms, so that each copy has one reaching binding per name.  Always
+    exact (tail duplication)."""
+    def bound(stmts: List[ast.stmt]) -> set:
+        out = set()
+        for s_ in stmts:
+            for x in ast.walk(s_):
+                if isinstance(x, ast.Name) and isinstance(x.ctx, ast.Store):
+                    out.add(x.id)
+        return out
+
+    def leaves(stmts: List[ast.stmt]) -> bool:
+        return bool(stmts) and isinstance(stmts[-1], (ast.Raise, ast.Return, ast.Break, ast.Continue))
+
+    def do_block(body: List[ast.stmt]) -> None:
+        i = 0
+        while i + 1 < len(body):
+            st, nx = body[i], body[i + 1]
+            if isinstance(st, ast.If) and st.body and st.orelse and not leaves(st.body) and not leaves(st.orelse) \
+                    and isinstance(nx, (ast.Assign, ast.Return, ast.Expr)) and isinstance(getattr(nx, "value", None), ast.Call) and sum(1 for _ in ast.walk(nx)) <= 80:
+                both = bound(st.body) & bound(st.orelse)
+                reads = {x.id for x in ast.walk(nx.value) if isinstance(x, ast.Name) and isinstance(x.ctx, ast.Load)}
+                if len(both & reads) >= 2 and not any(isinstance(x, (ast.Lambda, ast.NamedExpr)) for x in ast.walk(nx)):
+                    st.body.append(copy.deepcopy(nx))
+                    st.orelse.append(copy.deepcopy(nx))
+                    del body[i + 1]
+                    continue
+            i += 1
+
+    for fn in ast.walk(tree):
+        if isinstance(fn, (ast.FunctionDef, ast.AsyncFunctionDef)):
+            for n in ast.walk(fn):
+                for fld in ("body", "orelse", "finalbody"):
+                    b = getattr(n, fld, None)
+                    if isinstance(b, list) and b and isinstance(b[0], ast.stmt):
+                        do_block(b)
+
+
 def canonicalise(tree: ast.Module, module: str = "") -> ast.Module:
     if os.environ.get("JV_CANON_C16", "0") == "1":  # off: the reference tree itself uses `all(...)` tests that rules address (is_list_str); the any / all idiom is handled in the rules
         _any_all_to_loops(tree)
@@ -1265,6 +1664,10 @@ def canonicalise(tree: ast.Module, module: str = "") -> ast.Module:
         tree = _DropAnn().visit(tree)
     if os.environ.get("JV_CANON_C27", "1") == "1":
         _hoist_walrus(tree)
+    if os.environ.get("JV_CANON_C34", "1") == "1":
+        _segment_lists(tree)
+    if os.environ.get("JV_CANON_C35", "1") == "1":
+        _next_search(tree)
     if os.environ.get("JV_CANON_C16R", "1") == "1":
         _return_any_all(tree)
     if os.environ.get("JV_CANON_C28", "1") == "1":
@@ -1280,8 +1683,12 @@ def canonicalise(tree: ast.Module, module: str = "") -> ast.Module:
         _merge_same_test_ifs(tree)
     if os.environ.get("JV_CANON_C24", "1") == "1":
         _thread_sentinels(tree)
+    if os.environ.get("JV_CANON_C38", "1") == "1":
+        _duplicate_merge_calls(tree)
     for n in ast.walk(tree):
         if isinstance(n, (ast.FunctionDef, ast.AsyncFunctionDef)):
+            if os.environ.get("JV_CANON_C36", "1") == "1":
+                _coalesce_temp_copies(n)
             _inline_return_temps(n)
             if os.environ.get("JV_CANON_C5", "1") == "1":
                 _inline_single_use_temps(n)
